@@ -22,21 +22,22 @@
 #define BUFSZ 24
 #endif
 #define SL 3   /* length of the symbolic strings */
+
+
 /* RING: number of ring entries.  KSI_CTX_new uses KSI_ERR_STACK_LEN = 16; all ring code reads the size from
  * ctx->errors_size.  A 16-entry ring is a 33 KiB object whose bit-level encoding exhausts memory (measured 7 GB,
  * no answer in 5 min), so the instances use 1..3 entries; stated in the manifest. */
 #ifndef RING
 #define RING 2
 #endif
-
 static struct KSI_CTX_st C;
+static KSI_ERR ring[RING];
 
 void harness(void) {
 	KSI_CTX *ctx = &C;
 	memset(&C, 0, sizeof(C));
 	C.errors_size = RING;
-	C.errors = malloc(sizeof(KSI_ERR) * C.errors_size);
-	ASSUME(C.errors != NULL);
+	C.errors = ring;   /* static array instead of KSI_malloc: CBMC then tracks each entry and each field separately */
 #ifdef START_SYMBOLIC
 	size_t start = ND(size_t, start);
 #else
@@ -90,5 +91,4 @@ void harness(void) {
 	if (nomsg[0] && !nomsg[1] && msg[1][0] == 0) WITNESS_POINT("NULL and empty message stored");
 #endif
 	verif_buf_free((u8 *)buf, BUFSZ);
-	free(C.errors);
 }
